@@ -12,15 +12,14 @@ import (
 // write sets of functions (transitive, syntactic)
 
 func (c *Enc) writeSet(fn *ssa.Function) map[string]bool {
-	if ws, ok := c.eng.wsMemo[fn]; ok {
-		// heap vars must be registered in this Enc: re-register lazily
-		for w := range ws {
-			c.ensureHeapRegistered(w, fn)
-		}
+	if c.wsMemo == nil {
+		c.wsMemo = map[*ssa.Function]map[string]bool{}
+	}
+	if ws, ok := c.wsMemo[fn]; ok {
 		return ws
 	}
 	ws := map[string]bool{}
-	c.eng.wsMemo[fn] = ws // recursion guard (partial result for recursive calls)
+	c.wsMemo[fn] = ws // recursion guard (partial result for recursive calls)
 	if len(fn.Blocks) == 0 {
 		return ws
 	}
@@ -44,6 +43,23 @@ func (c *Enc) writeSet(fn *ssa.Function) map[string]bool {
 			continue
 		}
 		ws[w] = true
+	}
+	// what the function's own contract declares (ghost state is only ever written through contracts)
+	if fc := c.eng.cf.Funcs[funcKey(fn)]; fc != nil {
+		for _, m := range fc.Modifies {
+			for _, h := range c.modifiesHeaps(m.Pat) {
+				if strings.HasPrefix(h, "CELL:") {
+					name := strings.TrimPrefix(h, "CELL:")
+					for _, fv := range fn.FreeVars {
+						if fv.Name() == name {
+							ws["FV_"+sanitize(funcKey(fn))+"_"+fv.Name()] = true
+						}
+					}
+					continue
+				}
+				ws[h] = true
+			}
+		}
 	}
 	return ws
 }
@@ -194,6 +210,9 @@ func (fr *Frame) callRepoRes(callee *ssa.Function, bindings []ssa.Value, cc *ssa
 	c := fr.c
 	key := funcKey(callee)
 	fc := c.eng.cf.Funcs[key]
+	if fc != nil && !fc.Inline && len(fc.clauses("callpre")) > 0 {
+		return fr.applyHigherOrder(callee, fc, cc, args, at, st)
+	}
 	if fc != nil && !fc.Inline {
 		return fr.applyContract(callee, fc, bindings, cc, args, at, st)
 	}
@@ -323,12 +342,18 @@ func (fr *Frame) applyContract(callee *ssa.Function, fc *FuncContract, bindings 
 	c := fr.c
 	key := funcKey(callee)
 	c.callees[key] = true
+	if fc.Trusted != "" {
+		c.trusted["ASSUMED contract of "+key] = fc.Trusted
+	}
 	vars := map[string]TV{}
 	for i, p := range callee.Params {
-		vars[p.Name()] = TV{args[i], p.Type()}
+		if i < len(args) {
+			vars[p.Name()] = TV{args[i], p.Type()}
+		}
 	}
 	pre := st.clone()
 	// free variables of closures resolve to the caller's cells
+	localWitness := map[string]TV{}
 	mkCtx := func(cur, old *State) *EvalCtx {
 		x := &EvalCtx{c: c, fr: fr, st: cur, old: old, vars: vars}
 		x.resolve = func(name string, xc *EvalCtx) (TV, bool) {
@@ -338,6 +363,35 @@ func (fr *Frame) applyContract(callee *ssa.Function, fc *FuncContract, bindings 
 					return TV{fr.load(pl, xc.st), pl.Type}, true
 				}
 			}
+			// a local variable of the callee mentioned in its postcondition: at the call site it is an
+			// unknown witness (the postcondition was proved for the value it had)
+			if tv, ok := localWitness[name]; ok {
+				return tv, true
+			}
+			t := localVarType(callee, name)
+			if t == nil {
+				// witness of a callee's callee: <fn>_<local>
+				for i := 1; i < len(name); i++ {
+					if name[i] == '_' {
+						if fn2, ok := c.eng.funcs[name[:i]]; ok {
+							if t2 := localVarType(fn2, name[i+1:]); t2 != nil {
+								t = t2
+								break
+							}
+						}
+					}
+				}
+			}
+			if t != nil {
+				tv := TV{c.fresh(fr.id+"wit_"+sanitize(name), c.sortOf(t)), t}
+				localWitness[name] = tv
+				if fr.witness == nil {
+					fr.witness = map[string]TV{}
+				}
+				// nameable in the caller's own contract as <callee>_<local>
+				fr.witness[sanitize(funcKey(callee))+"_"+name] = tv
+				return tv, true
+			}
 			return TV{}, false
 		}
 		return x
@@ -346,13 +400,21 @@ func (fr *Frame) applyContract(callee *ssa.Function, fc *FuncContract, bindings 
 	c.callSeq[key]++
 	site := fmt.Sprintf("%s/call:%s#%d", funcKey(c.top), key, c.callSeq[key])
 	for _, cl := range fc.clauses("requires") {
+		if strings.HasPrefix(cl.Label, "callback:") {
+			fr.checkCallbackArg(callee, cc, cl, site, at, st)
+			continue
+		}
 		x := mkCtx(st, pre)
 		if g, ok := x.evalBool(cl.Expr); ok {
 			c.oblige(fmt.Sprintf("%s[%s]", site, cl.Label), "requires", at, g, cl.Text)
 		}
 	}
-	// havoc the callee's write set
+	// havoc the callee's write set (for an ASSUMED contract the modifies clause is the whole story:
+	// its body is not verified, so its syntactic write set is not consulted)
 	ws := c.writeSet(callee)
+	if fc.Trusted != "" {
+		ws = map[string]bool{}
+	}
 	declared := map[string]bool{}
 	atRefs := map[string][]Term{}
 	for _, m := range fc.Modifies {
@@ -445,6 +507,24 @@ func (fr *Frame) applyContract(callee *ssa.Function, fc *FuncContract, bindings 
 	for _, cl := range fc.clauses("ensures") {
 		x := mkCtx(st, pre)
 		if g, ok := x.evalBool(cl.Expr); ok {
+			// a clause with a recorded (unrepaired) finding is only assumed outside the recorded shape
+			for _, f := range c.eng.findings {
+				if f.Kind == "finding" && f.Obligation == fmt.Sprintf("%s/ensures[%s]", key, cl.Label) {
+					if f.Shape == "" {
+						g = True
+						break
+					}
+					if sx, err := parseExpr(f.Shape); err == nil {
+						if sh, ok := mkCtx(st, pre).evalBool(sx); ok {
+							g = Or(sh, g)
+						} else {
+							g = True
+						}
+					} else {
+						g = True
+					}
+				}
+			}
 			c.assume(at, g)
 		}
 	}
@@ -465,6 +545,33 @@ func (fr *Frame) encodeCallback(v *ssa.Call, cc *ssa.CallCommon, args []Term, at
 		res := owner.callRepoRes(mc.Fn.(*ssa.Function), mc.Bindings, cc, args, at, st)
 		if v != nil {
 			fr.setResultsRaw(v, res)
+		}
+		return
+	}
+	// function-typed parameter of a higher-order contract (callpre): the callback runs at most once, in a
+	// state satisfying the callpre clauses; its own effects are accounted for at the call sites of this function
+	if p, ok := cc.Value.(*ssa.Parameter); ok && fr.fc != nil && len(fr.fc.clauses("callpre")) > 0 {
+		called := c.cellVar("CB_called", tyBool)
+		et := types.Universe.Lookup("error").Type()
+		retCell := c.cellVar("CB_ret", et)
+		c.oblige(fmt.Sprintf("%s/callback[%s-at-most-once]", funcKey(c.top), p.Name()), "requires", at, Not(c.get(st, called)), "the callback is invoked at most once")
+		for _, cl := range fr.fc.clauses("callpre") {
+			x := fr.evalCtxAt(st, &State{h: map[string]Term{}}, nil, nil)
+			for _, q := range fr.fn.Params {
+				if _, isPlace := fr.places[q]; !isPlace {
+					x.vars[q.Name()] = TV{fr.val(q), q.Type()}
+				}
+			}
+			if g, ok := x.evalBool(cl.Expr); ok {
+				c.oblige(fmt.Sprintf("%s/callpre[%s]", funcKey(c.top), cl.Label), "requires", at, g, cl.Text)
+			}
+		}
+		st.h[called] = True
+		r := c.fresh(fr.id+"fnret", SInt)
+		st.h[retCell] = r
+		c.notes = append(c.notes, fmt.Sprintf("%s: the body is verified with the callback %s abstracted (no effect on the ghost lock state, which is checked at every call site); its other effects are applied at the call sites", funcKey(fr.fn), p.Name()))
+		if v != nil {
+			fr.setResultsRaw(v, []Term{r})
 		}
 		return
 	}
@@ -622,4 +729,173 @@ func (fr *Frame) encodeAppend(v *ssa.Call, cc *ssa.CallCommon, at Term, st *Stat
 		c.assert(Eq(sym, res))
 		fr.vals[v] = sym
 	}
+}
+
+// checkCallbackArg: a [callback:param] clause constrains the function passed for param; at a call site the
+// passed function (a static function or closure literal) is inlined on symbolic arguments and must satisfy it.
+func (fr *Frame) checkCallbackArg(callee *ssa.Function, cc *ssa.CallCommon, cl *Clause, site string, at Term, st *State) {
+	c := fr.c
+	pname := strings.TrimPrefix(cl.Label, "callback:")
+	for i, p := range callee.Params {
+		if p.Name() != pname || i >= len(cc.Args) {
+			continue
+		}
+		var fn *ssa.Function
+		var bindings []ssa.Value
+		switch a := cc.Args[i].(type) {
+		case *ssa.Function:
+			fn = a
+		case *ssa.MakeClosure:
+			fn = a.Fn.(*ssa.Function)
+			bindings = a.Bindings
+		}
+		if fn == nil || !autoInlinable(fn) {
+			c.errorf("%s: cannot check callback clause [%s]: argument is not a small static function", funcKey(fr.fn), cl.Label)
+			return
+		}
+		vars := map[string]TV{}
+		var args []Term
+		for j, q := range fn.Params {
+			a := c.fresh("cbarg", c.sortOf(q.Type()))
+			args = append(args, a)
+			vars[fmt.Sprintf("arg%d", j)] = TV{a, q.Type()}
+		}
+		scratch := st.clone()
+		fake := &ssa.CallCommon{Value: fn, Args: nil}
+		res := fr.inlineCall(fn, bindings, fake, args, at, scratch)
+		c.inlined[funcKey(fn)] = true
+		for j, r := range res {
+			vars[fmt.Sprintf("res%d", j)] = TV{r, fn.Signature.Results().At(j).Type()}
+		}
+		x := &EvalCtx{c: c, fr: fr, st: scratch, old: st, vars: vars}
+		if g, ok := x.evalBool(cl.Expr); ok {
+			c.oblige(fmt.Sprintf("%s[%s]", site, cl.Label), "requires", at, g, cl.Text)
+		}
+		return
+	}
+	c.errorf("%s: callback clause [%s] names no parameter of %s", funcKey(fr.fn), cl.Label, funcKey(callee))
+}
+
+// applyHigherOrder applies the contract of a function that calls its function argument at most once
+// (clauses callpre/called/fnret), composing it with the contract of the closure passed at this site.
+func (fr *Frame) applyHigherOrder(callee *ssa.Function, fc *FuncContract, cc *ssa.CallCommon, args []Term, at Term, st *State) []Term {
+	c := fr.c
+	key := funcKey(callee)
+	c.callees[key] = true
+	c.callSeq[key]++
+	site := fmt.Sprintf("%s/call:%s#%d", funcKey(c.top), key, c.callSeq[key])
+	// locate the function argument
+	var cbFn *ssa.Function
+	var cbBindings []ssa.Value
+	for _, a := range cc.Args {
+		switch x := a.(type) {
+		case *ssa.MakeClosure:
+			cbFn = x.Fn.(*ssa.Function)
+			cbBindings = x.Bindings
+		case *ssa.Function:
+			cbFn = x
+		}
+	}
+	et := types.Universe.Lookup("error").Type()
+	res := []Term{c.fresh(fr.id+"r_"+sanitize(key), SInt)}
+	if cbFn == nil {
+		c.errorf("%s: call of higher-order %s without a literal function argument", funcKey(fr.fn), key)
+		return res
+	}
+	cbKey := funcKey(cbFn)
+	cbFc := c.eng.cf.Funcs[cbKey]
+	if cbFc == nil {
+		c.errorf("%s: closure %s passed to %s needs a contract", funcKey(fr.fn), cbKey, key)
+		return res
+	}
+	vars := map[string]TV{}
+	for i, p := range callee.Params {
+		vars[p.Name()] = TV{args[i], p.Type()}
+	}
+	pre := st.clone()
+	mk := func(cur, old *State) *EvalCtx {
+		return &EvalCtx{c: c, fr: fr, st: cur, old: old, vars: vars}
+	}
+	for _, cl := range fc.clauses("requires") {
+		if g, ok := mk(st, pre).evalBool(cl.Expr); ok {
+			c.oblige(fmt.Sprintf("%s[%s]", site, cl.Label), "requires", at, g, cl.Text)
+		}
+	}
+	// the callback must leave the callee's own ghost state alone
+	var own []string
+	for _, m := range fc.Modifies {
+		own = append(own, c.modifiesHeaps(m.Pat)...)
+	}
+	cbWrites := c.writeSet(cbFn)
+	for _, h := range own {
+		if cbWrites[h] {
+			c.errorf("%s: closure %s writes %s, which belongs to %s", funcKey(fr.fn), cbKey, h, key)
+		}
+	}
+	// state in which the callback runs
+	stCall := st.clone()
+	for _, h := range own {
+		if _, ok := c.heapSorts[h]; ok {
+			c.havoc(stCall, h)
+		}
+	}
+	called := c.fresh(fr.id+"called", SBool)
+	for _, cl := range fc.clauses("callpre") {
+		if g, ok := mk(stCall, pre).evalBool(cl.Expr); ok {
+			c.assume(And(at, called), g)
+		}
+	}
+	// the callback itself, by its contract
+	cbRes := fr.applyContract(cbFn, cbFc, cbBindings, &ssa.CallCommon{Value: cbFn}, nil, And(at, called), stCall)
+	fnret := IntLit(0)
+	if len(cbRes) > 0 {
+		fnret = cbRes[0]
+	}
+	// merge: called -> stCall, otherwise pre
+	keys := map[string]bool{}
+	for k := range stCall.h {
+		keys[k] = true
+	}
+	for _, k := range sortedKeysOf(keys) {
+		a, b := c.get(stCall, k), c.get(pre, k)
+		if a.S == b.S {
+			continue
+		}
+		sym := c.fresh(k, c.heapSorts[k])
+		c.assert(Eq(sym, Ite(called, a, b)))
+		st.h[k] = sym
+	}
+	// the callee's own ghost state after the call
+	for _, h := range own {
+		if _, ok := c.heapSorts[h]; ok {
+			c.havoc(st, h)
+		}
+	}
+	vars["called"] = TV{called, tyBool}
+	vars["fnret"] = TV{fnret, et}
+	for _, n := range resultNames(callee)[0] {
+		vars[n] = TV{res[0], et}
+	}
+	for _, cl := range fc.clauses("ensures") {
+		if g, ok := mk(st, pre).evalBool(cl.Expr); ok {
+			c.assume(at, g)
+		}
+	}
+	return res
+}
+
+// localVarType finds the type of a local variable of fn by name (nil if none).
+func localVarType(fn *ssa.Function, name string) types.Type {
+	for _, b := range fn.Blocks {
+		for _, ins := range b.Instrs {
+			if dr, ok := ins.(*ssa.DebugRef); ok {
+				if obj := dr.Object(); obj != nil && obj.Name() == name {
+					if v, ok := obj.(*types.Var); ok {
+						return v.Type()
+					}
+				}
+			}
+		}
+	}
+	return nil
 }
